@@ -316,6 +316,10 @@ func (e *BSeqEval) allocContents(a *ssa.Alloc, use ssa.Instruction, env *bsEnv, 
 		switch r := ref.(type) {
 		case *ssa.Store:
 			if r.Addr == ssa.Value(a) {
+				// `return x` of a named result x stores x's own value back into x: not a new content
+				if ld, ok := r.Val.(*ssa.UnOp); ok && ld.Op == token.MUL && ld.X == ssa.Value(a) {
+					continue
+				}
 				whole = append(whole, r)
 			} else {
 				unknown = true
